@@ -486,7 +486,9 @@ int sim_main(int argc, char **argv, World &w) {
         uint64_t rs = run_seed_of(seed, v.idx);
         Rng kr(substream(rs, "knobs")), pr(substream(rs, "plan")); Triple t; w.gen(prop, kr, pr, t.k, t.p);
         Iso r1 = run_isolated(w, prop, t.k, t.p, nullptr, substream(rs, "sched"));
-        if (r1.cls != v.cls || r1.taint != v.taint) { infra++; infra_msgs.push_back("NONDETERMINISM run " + std::to_string(v.idx) + ": batch said " + v.cls + "/" + v.taint + ", isolated re-execution said " + r1.cls + "/" + r1.taint); continue; }
+        // memory corruption in the code under test may show as a different class in a differently laid out process: a violation both times is
+        // still a violation (the isolated class is reported); only "violation in the batch, fine in isolation" is a determinism failure of the harness
+        if (r1.cls.empty() || r1.cls == "INFRA") { infra++; infra_msgs.push_back("NONDETERMINISM run " + std::to_string(v.idx) + ": batch said " + v.cls + "/" + v.taint + ", isolated re-execution said " + (r1.cls.empty() ? "OK" : r1.cls) + "/" + r1.taint); continue; }
         t.c = r1.choices;
         Iso r2 = run_isolated(w, prop, t.k, t.p, &t.c, 0);   // gate 1: replay from the captured triple
         if (r2.cls != r1.cls || r2.hash != r1.hash) { infra++; infra_msgs.push_back("NONDETERMINISM run " + std::to_string(v.idx) + ": replay from captured choices gave " + r2.cls + " hash " + std::to_string(r2.hash) + " vs " + std::to_string(r1.hash)); continue; }
